@@ -10,6 +10,7 @@ import (
 	"net"
 	"net/netip"
 	"os"
+	"path/filepath"
 	"slices"
 	"sort"
 	"strings"
@@ -53,6 +54,11 @@ func (d *c04aDHCP) MACByIP(ip netip.Addr) (mac net.HardwareAddr) {
 	return nil
 }
 
+const (
+	c04aListHost   = "ads.list.verif.example"
+	c04aCustomHost = "ads.custom.verif.example"
+)
+
 var (
 	c04aNames = []string{"alpha", "bravo", "charlie", "delta", "echo", "foxtrot"}
 	c04aSvcOf = map[string]string{"alpha": "youtube", "bravo": "facebook", "charlie": "twitter", "delta": "instagram", "echo": "tiktok", "foxtrot": "netflix"}
@@ -79,6 +85,10 @@ type c04aClient struct {
 	Name    string   `json:"name"`
 	IDs     []string `json:"ids"`
 	Service string   `json:"own_blocked_service"`
+	// OwnSettings / Filtering: the client opts out of the global settings and
+	// has filtering by the rule lists on or off of its own.
+	OwnSettings bool `json:"use_own_settings"`
+	Filtering   bool `json:"own_filtering_enabled"`
 
 	ips  []netip.Addr
 	nets []netip.Prefix
@@ -191,8 +201,22 @@ func TestVerifC04Attribution(t *testing.T) {
 
 	// One server for the whole run; the registry behind it is swapped.
 	var cur *client.Storage
+	// The GLOBAL filtering switch of this server is off; an enabled block list
+	// on disk and a custom rule are there for the clients that filter of
+	// their own.
+	if err = os.MkdirAll(filepath.Join(dir, "filters"), 0o755); err != nil {
+		rep.Inconcl(err.Error())
+		return
+	}
+	fy := filtering.FilterYAML{Enabled: true, URL: "https://lists.invalid/1.txt", Name: "verif list"}
+	fy.ID = 1
+	if err = os.WriteFile(fy.Path(dir), []byte("! Title: verif list\n||"+c04aListHost+"^\n"), 0o644); err != nil {
+		rep.Inconcl(err.Error())
+		return
+	}
 	f, err := filtering.New(&filtering.Config{
 		DataDir: dir, ProtectionEnabled: true, BlockingMode: filtering.BlockingModeDefault,
+		FilteringEnabled: false, Filters: []filtering.FilterYAML{fy}, UserRules: []string{"||" + c04aCustomHost + "^"},
 		BlockedServices: &filtering.BlockedServices{Schedule: vkWeekly(false), IDs: []string{"amazon"}},
 		ApplyClientFiltering: func(id string, a netip.Addr, setts *filtering.Settings) {
 			cur.ApplyClientFiltering(id, a, setts)
@@ -203,6 +227,8 @@ func TestVerifC04Attribution(t *testing.T) {
 		return
 	}
 	defer f.Close()
+	// As home.startDNSServer does.
+	f.EnableFilters(false)
 	ql := &vkQLog{}
 	s, err := NewServer(DNSCreateParams{
 		DHCPServer:  &testDHCP{OnEnabled: func() bool { return false }, OnHostByIP: func(netip.Addr) string { return "" }, OnIPByHost: func(string) netip.Addr { return netip.Addr{} }},
@@ -239,16 +265,21 @@ func TestVerifC04Attribution(t *testing.T) {
 
 	if !rep.Violated() {
 		for ev, min := range map[string]int{
-			"requests:zoned-ipv6":                                       1000,
-			"requests:ipv4-mapped":                                      300,
-			"decided_by:exact-ip:zoned-ipv6":                            100,
-			"decided_by:cidr:zoned-ipv6":                                100,
-			"decided_by:dhcp-mac:zoned-ipv6":                            20,
-			"decided_by:clientid":                                       300,
-			"exact_ip_owner_differs_from_containing_cidr_owner":         100,
-			"zoned_exact_ip_owner_differs_from_containing_cidr_owner":   50,
-			"zoned_exact_ip_owner_and_other_owner_of_unzoned_same_addr": 5,
-			"pipeline_verdicts_checked":                                 2000,
+			"requests:zoned-ipv6":                                                       1000,
+			"requests:ipv4-mapped":                                                      300,
+			"decided_by:exact-ip:zoned-ipv6":                                            100,
+			"decided_by:cidr:zoned-ipv6":                                                100,
+			"decided_by:dhcp-mac:zoned-ipv6":                                            20,
+			"decided_by:clientid":                                                       300,
+			"exact_ip_owner_differs_from_containing_cidr_owner":                         100,
+			"zoned_exact_ip_owner_differs_from_containing_cidr_owner":                   50,
+			"zoned_exact_ip_owner_and_other_owner_of_unzoned_same_addr":                 5,
+			"pipeline_verdicts_checked":                                                 2000,
+			"pipeline_rule_list_verdicts:client-uses-own-settings:own-filtering-on":     500,
+			"pipeline_rule_list_verdicts:client-uses-own-settings:own-filtering-off":    500,
+			"pipeline_rule_list_verdicts:client-uses-global-settings:own-filtering-on":  500,
+			"pipeline_rule_list_verdicts:client-uses-global-settings:own-filtering-off": 500,
+			"pipeline_rule_list_verdicts:client-uses-none":                              500,
 		} {
 			if rep.Events[ev] < min {
 				rep.Inconcl(fmt.Sprintf("event %q seen %d times, fewer than %d", ev, rep.Events[ev], min))
@@ -277,7 +308,7 @@ func c04aRegistry(ctx context.Context, rep *verifkit.Report, rng *rand.Rand, s *
 	names := slices.Clone(c04aNames)
 	rng.Shuffle(len(names), func(i, j int) { names[i], names[j] = names[j], names[i] })
 	for _, n := range names[:3+rng.Intn(4)] {
-		c := &c04aClient{Name: n, Service: c04aSvcOf[n]}
+		c := &c04aClient{Name: n, Service: c04aSvcOf[n], OwnSettings: rng.Intn(2) == 0, Filtering: rng.Intn(2) == 0}
 		for k := 1 + rng.Intn(3); k > 0; k-- {
 			id := pool[rng.Intn(len(pool))]
 			if !slices.Contains(c.IDs, id) {
@@ -286,6 +317,7 @@ func c04aRegistry(ctx context.Context, rep *verifkit.Report, rng *rand.Rand, s *
 		}
 		p := &client.Persistent{
 			Name: n, UID: client.MustNewUID(), UseOwnBlockedServices: true,
+			UseOwnSettings: c.OwnSettings, FilteringEnabled: c.Filtering,
 			BlockedServices: &filtering.BlockedServices{Schedule: vkWeekly(false), IDs: []string{c.Service}},
 		}
 		if err = p.SetIDs(slices.Clone(c.IDs)); err != nil {
@@ -448,6 +480,45 @@ func c04aRegistry(ctx context.Context, rep *verifkit.Report, rng *rand.Rand, s *
 					witness(map[string]any{"question": msg.Question[0].Name, "logged_result": fmt.Sprintf("%+v", res), "logged_service": svcName,
 						"logged_clientid": entries[0].ClientID, "answer": vkRRStrings(pctx.Res.Answer)}))
 				return
+			}
+
+			// (B2) the whole pipeline again, for a host that an enabled block
+			// list (resp. a custom rule) blocks: the global filtering switch is
+			// off, so it is blocked iff the request belongs to a client that
+			// opts out of the global settings and filters of its own.
+			wantFiltered := owner != nil && owner.OwnSettings && owner.Filtering
+			for hi, host := range []string{c04aListHost, c04aCustomHost} {
+				m2 := &dns.Msg{}
+				m2.SetQuestion(host+".", dns.TypeA)
+				*reqID++
+				p2 := &proxy.DNSContext{Proto: proto, Req: m2, Addr: netip.AddrPortFrom(a, 5353), RequestID: *reqID}
+				if cid != "" {
+					var key [8]byte
+					binary.BigEndian.PutUint64(key[:], p2.RequestID)
+					s.clientIDCache.Set(key[:], []byte(cid))
+				}
+				ql.take()
+				herr = s.handleDNSRequest(nil, p2)
+				es := ql.take()
+				if herr != nil || p2.Res == nil || len(es) != 1 || es[0].Result == nil {
+					rep.Event("pipeline_requests_without_verdict")
+					continue
+				}
+				got := es[0].Result.IsFiltered && es[0].Result.Reason == filtering.FilteredBlockList
+				uses := "none"
+				if owner != nil {
+					uses = map[bool]string{true: "own", false: "global"}[owner.OwnSettings] + "-settings:own-filtering-" + map[bool]string{true: "on", false: "off"}[owner.Filtering]
+				}
+				rep.Event("pipeline_rule_list_verdicts:client-uses-" + uses)
+				if got != wantFiltered {
+					rep.Violate("attribution:pipeline:rule-lists:"+[]string{"list-file-rule", "custom-rule"}[hi]+":"+
+						map[bool]string{true: "blocked-but-want-allowed", false: "allowed-but-want-blocked"}[got]+":client-uses-"+uses+":global-filtering-off",
+						fmt.Sprintf("request from %s (ClientID %q) for %s while the global filtering switch is off: blocked by the rule lists = %v, although the request belongs to %q (use_own_settings=%v, own filtering=%v)",
+							src, cid, host, got, wantName, owner != nil && owner.OwnSettings, owner != nil && owner.Filtering),
+						witness(map[string]any{"question": host, "logged_result": fmt.Sprintf("%+v", es[0].Result), "answer": vkRRStrings(p2.Res.Answer),
+							"global_filtering_switch": false}))
+					return
+				}
 			}
 		}
 	}
